@@ -136,7 +136,7 @@ func isOpaqueType(t types.Type) bool {
 
 func (p *Path) newObj(t types.Type, v Value) *Object {
 	p.nobj++
-	o := &Object{ID: p.nobj, Val: v, Type: t, Pre: !p.entered}
+	o := &Object{ID: p.nobj, Val: v, Type: t, Pre: p.initMode || (!p.entered && !p.E.Cfg.SharedExplicit)}
 	return o
 }
 
@@ -342,11 +342,14 @@ func (p *Path) exec(fn *ssa.Function, args []Value, free []Value, site ssa.Instr
 				case 0:
 					return nil
 				case 1:
-					return p.get(fr, in.Results[0])
+					v := p.get(fr, in.Results[0])
+					p.checkReleased(v, in)
+					return v
 				}
 				es := make([]Value, len(in.Results))
 				for i, r := range in.Results {
 					es[i] = p.get(fr, r)
+					p.checkReleased(es[i], in)
 				}
 				return TupleV{E: es}
 			case *ssa.Panic:
@@ -606,7 +609,7 @@ func (p *Path) step(fr *frame, ins ssa.Instruction) {
 		fr.locals[in] = IfaceV{T: in.X.Type(), V: v}
 	case *ssa.MakeMap:
 		p.nobj++
-		fr.locals[in] = MapV{M: &MapObj{ID: p.nobj, Pre: !p.entered}}
+		fr.locals[in] = MapV{M: &MapObj{ID: p.nobj, Pre: p.initMode || (!p.entered && !p.E.Cfg.SharedExplicit)}}
 	case *ssa.MakeSlice:
 		ln := p.concretize(p.get(fr, in.Len).(IntV).T, "make len", in)
 		cp := p.concretize(p.get(fr, in.Cap).(IntV).T, "make cap", in)
